@@ -149,6 +149,20 @@ CHECKS.update({
         design="4 C17"),
 })
 
+CHECKS.update({
+    "C19": dict(
+        text="Wire.tla models every protocol message as an ordered list of typed fields whose sizes are functions of N, "
+             "certificate shape, shredder and slice payload length, plus the sequential decoder, encode-after-decode and 20 "
+             "grammar-level malformed classes with their byte edits; TLC checks FitsDatagram (max 1389 bytes), RoundTrip, "
+             "StrictRejected and NormalForm on every case (all N in 1..2048, every slice data length in thorough, every class at "
+             "every field); each emitted case is built with real keys / aggregation / shredders / proofs and the real encoder's "
+             "size and the decoder's verdict, value, re-encoding and fixed point are compared with the spec's.",
+        note="grammar-level classes only (no arbitrary byte strings; BLS point validity opaque); quick replays a seeded subset "
+             "of N and size classes while TLC still checks all N; " + TB,
+        technique="TLA+ layout/decoder spec + TLC case enumeration + spec->code case replay into the real encoder/decoder",
+        design="4 C19"),
+})
+
 NOT_YET = {
     "C01": "check not built yet in this round (abstract protocol model + simulator planned, DESIGN 4 C01)",
     "C02": "check not built yet in this round (DESIGN 4 C02)",
